@@ -497,3 +497,22 @@ Definition capacity_ok (ins : instance) (a : asg) : bool :=
       (names_of (snd kw))) (indexed_from 0 (i_workers ins)).
 Definition returned_ok (ins : instance) (ds : list decision) : bool :=
   zlist_eqb (map dec_task ds) (map zt_id (i_tasks ins)) && forallb (decision_ok ins) ds.
+
+(* ---------------------------------------------------------------- C12: deadlines are soft rows *)
+(* weight of the violated soft rows: what z3.Optimize minimises first (objectives are handled in the
+   order they were declared; the soft group is declared before maximize(goal)) *)
+Definition soft_penalty (ins : instance) (a : asg) : Z :=
+  fold_right (fun p acc => (if feval a (fst p) then 0 else snd p) + acc) 0 (soft_z3 ins).
+Definition soft_optimal (ins : instance) (fs : list bexp) (a : asg) : Prop :=
+  sat fs a = true /\ forall a', sat fs a' = true -> soft_penalty ins a <= soft_penalty ins a'.
+(* no start time allowed by the timing row meets the deadline *)
+Definition hopeless (ins : instance) (t : ztask) : bool :=
+  zt_deadline t <? Z.max (i_now ins) (zt_release t) + zt_remaining t.
+Definition meets_deadline (a : asg) (t : ztask) : bool := a (VStart (zt_id t)) + zt_remaining t <=? zt_deadline t.
+(* monitor for the returned optimum under enforce_deadlines: a placed task that could meet its deadline does *)
+Definition c12_ok (ins : instance) (a : asg) : bool :=
+  negb (i_enforce ins) ||
+  forallb (fun t => implb (truth a (VPlaced (zt_id t)) && negb (hopeless ins t)) (meets_deadline a t)) (i_tasks ins).
+(* the statement without the exemption (planned in DESIGN.md §5 C12): refuted for Z3 *)
+Definition c12_strict_ok (ins : instance) (a : asg) : bool :=
+  negb (i_enforce ins) || forallb (fun t => implb (truth a (VPlaced (zt_id t))) (meets_deadline a t)) (i_tasks ins).
